@@ -233,6 +233,17 @@ def build_cases(tier, wd):
                      f"<msubsup>{a}{b}{c}</msubsup>", f"<munderover><mo>∑</mo>{a}{b}</munderover>", f"<mroot>{a}{b}</mroot>", f"<msub><mi>x</mi>{a}</msub>{b}",
                      f"<mtable><mtr><mtd>{a}</mtd><mtd>{b}</mtd></mtr></mtable>", f"<msqrt>{a}{b}</msqrt>"):
             cases.append({"mathml": f"<math>{body}</math>", "origin": "adjacent-wrappers", "idmode": "none", "spicy": True, "locale": None})
+    # names typed letter by letter (what TeX makes of $Sin(x)$): clean-up joins a run of single-letter mi's that spells a function name
+    # or a known word - with the letters the author wrote, in every casing
+    names = ["sin", "cos", "tan", "log", "ln", "lim", "max", "min", "exp", "det", "gcd", "arcsin", "sinh", "re", "im", "pr", "dim", "ker", "tr", "hom", "mod", "velocity", "xyz", "và", "tạ"]
+    for ni, nm in enumerate(names):
+        for ci, casing in enumerate((str.lower, str.capitalize, str.upper, lambda w: w[:-1] + w[-1].upper())):
+            word = casing(nm)
+            run = "".join(f"<mi>{ch}</mi>" for ch in word)
+            for hi, h in enumerate(("<math>{}<mo>(</mo><mi>x</mi><mo>)</mo></math>", "<math><mn>2</mn>{}<mi>x</mi><mo>+</mo>{}<mn>3</mn></math>", "<math><msqrt>{}<mi>t</mi></msqrt></math>")):
+                if tier == "quick" and (ni + ci + hi) % 2 and ci != 1:
+                    continue
+                cases.append({"mathml": h.replace("{}", run), "origin": "letter-by-letter", "idmode": "none", "spicy": True, "locale": ("vi", None) if not nm.isascii() else None})
     # a semantics wrapper around a single-child wrapper around a token / 2-D element (what LaTeXML and MathJax emit), with an author id
     # on every subset of the three: the two wrappers vanish, an id on the inner element stays on it
     inner = ["<mi{I}>x</mi>", "<mn{I}>42</mn>", "<mfrac{I}><mi>a</mi><mi>b</mi></mfrac>", "<msup{I}><mi>x</mi><mn>2</mn></msup>", "<msqrt{I}><mi>x</mi></msqrt>"]
